@@ -496,10 +496,25 @@ def cloning(ctx: Ctx, rule: str) -> None:
     okr = okr and len(oc) == 1 and ast.unparse(oc[0].value) == "self.get_nodes_by_name(child.setless_form)"
     ctx.record(rule + "u", "GUARD", PCB, "an equal clone parsed earlier is reused (at most one may exist)", okr, {}, "" if okr else "clones can be duplicated")
     reg = [c for c in calls_in(body) if call_name(c) == "new_nodes"]
-    okn = len(reg) == 1 and ast.unparse(reg[0].args[0]) == "clones"
-    ctx.record(rule + "n", "COUNT", PCB, "clones of dependants are registered in the graph; first-round clones are returned to the caller for registration", okn, {},
-               "" if okn else "clones are not registered in the graph")
-
+    ext = [c for c in calls_in(body) if call_name(c) == "extend" and ast.unparse(c.func.value) == "test_nodes"]
+    okn = len(reg) == 1 and len(ext) == 1 and isinstance(reg[0].args[0], ast.Name) and ast.unparse(reg[0].args[0]) == ast.unparse(ext[0].args[0])
+    regvar = ast.unparse(reg[0].args[0]) if reg else None
+    ctx.record(rule + "n", "COUNT", PCB, "clones of dependants are registered in the graph; first-round clones are returned to the caller for registration (the same collection in both cases)", okn,
+               {"registered": regvar}, "" if okn else "clones are not registered in the graph")
+    # a clone found by name from an earlier parse is already in the graph: it must not be handed to new_nodes again
+    reuse_if = [i for i in ast.walk(loop) if isinstance(i, ast.If) and norm.equivalent(norm.formula(i.test), norm.formula(ast.parse("len(old_clones) > 0", mode="eval").body))]
+    okd = okn and len(reuse_if) == 1
+    where = []
+    if okd:
+        apps = [c for c in calls_in(loop) if call_name(c) == "append" and ast.unparse(c.func.value) == regvar]
+        for c in apps:
+            fresh = any(x is c for s_ in reuse_if[0].orelse for x in ast.walk(s_))
+            where.append("fresh branch" if fresh else "every clone (also reused ones)")
+            okd = okd and fresh and ast.unparse(c.args[0]) == "child"
+        okd = okd and len(apps) == 1
+    ctx.record(rule + "d", "COUNT", PCB, "only freshly created clones are registered / returned for registration; a reused earlier clone (found by its set-invariant name) is not added to the graph a second time",
+               okd, {"registered_collection": regvar, "appended_in": where},
+               "" if okd else f"reused clones are registered again: the collection handed to new_nodes ({regvar}) receives {where or 'no fresh-only append'} — graph.nodes lists the same node twice when a test is selected through two test sets")
 
 # ---------------------------------------------------------------------- C09.1 bridging
 def bridge_table(ctx: Ctx, rule: str) -> None:
@@ -862,6 +877,26 @@ def worker_symmetry(ctx: Ctx, rule: str) -> None:
                {"index": idx, "position_dependent_tests": positional},
                "" if not positional else f"workers are treated differently by position ({positional[0]}): objects or nodes of later workers are registered by another rule than the first worker's, "
                                          "so a vm variant only a later worker supports is unknown to the graph and its dependencies are silently dropped")
+    # a worker whose own restrictions exclude the whole selection just has no tests: it must not take the other workers' copies down
+    pcall = [c for c in calls_in(loop) if call_name(c) == "parse_object_nodes"]
+    tries = [t for t in ast.walk(loop) if isinstance(t, ast.Try) and any(c is x for s_ in t.body for x in ast.walk(s_) for c in pcall)]
+    iso = False
+    why = "parse_object_nodes of one worker is not guarded: its EmptyCartesianProduct aborts the parse for all workers"
+    if len(pcall) == 1 and len(tries) == 1:
+        hs = [h for h in tries[0].handlers if h.type is not None and ast.unparse(h.type).endswith("EmptyCartesianProduct")]
+        if len(hs) == 1 and len(tries[0].handlers) == 1:
+            hb = hs[0].body
+            iso = isinstance(hb[-1], ast.Continue) and not any(isinstance(x, (ast.Return, ast.Raise, ast.Break)) for s_ in hb for x in ast.walk(s_))
+            why = "the handler of a worker's empty product does not simply go on with the next worker"
+            # an entirely empty selection must still be an error
+            after = fn.node.body[fn.node.body.index(loop) + 1:] if loop in fn.node.body else []
+            rer = [i for i in after if isinstance(i, ast.If) and any(isinstance(x, ast.Raise) for x in ast.walk(i))]
+            empty = norm.formula(ast.parse("len(graph.nodes) == 0", mode="eval").body)
+            if iso and not (len(rer) == 1 and norm.implies(norm.formula(rer[0].test), empty)):
+                iso = False
+                why = "after skipping incompatible workers an entirely empty selection is no longer an error (EmptyCartesianProduct must be raised when no worker parsed any test)"
+    ctx.record(rule + "e", "TABLE", fref, "a worker whose restrictions exclude the whole selection is skipped (EmptyCartesianProduct caught per worker, continue); the error is raised only if no worker parsed any test", iso,
+               {"guarded": bool(tries)}, "" if iso else why)
     # what is registered: all leaves; every stub that is a net or not yet known by id
     regs = [c for c in calls_in(loop) if call_name(c) == "new_objects" and ast.unparse(c.func.value) == "graph"]
     nodes = [c for c in calls_in(loop) if call_name(c) == "new_nodes" and ast.unparse(c.func.value) == "graph"]
